@@ -170,6 +170,7 @@ func init() {
 			items = append(items, Item{Name: "number-bound-chains", MaxDevs: -1, Run: c01NumberChainScenario})
 			items = append(items, Item{Name: "length-and-instant-bound-chains", MaxDevs: -1, Run: c01OtherChainScenario})
 			items = append(items, c01ShortSubjectItems()...)
+			items = append(items, Item{Name: "coercers-answering-nil", MaxDevs: -1, Run: c01NilCoercerScenario})
 			return append(items, Item{Name: "builtin-tests-on-long-values", MaxDevs: -1, Run: c01BuiltinLongScenario})
 		},
 	})
